@@ -52,6 +52,13 @@ Insert(d, p, b) ==
     /\ uid' \in UidCands(NewRange(Len(b)), [r \in NewRange(Len(b)) |-> b[r - nextRef + 1].uid], {})
     /\ InsertU(d, p, b)
 
+\* a builder one of whose nodes (the first or the last) was given the referent c of an instance of the DOM
+InsertCollide(d, p, b, k, c) ==
+    /\ InsertCollideS(d, p, b, k, c)
+    /\ IF k = 1 THEN UidUnchanged
+       ELSE /\ uid' \in UidCands(NewRange(k - 1), [r \in NewRange(k - 1) |-> b[r - nextRef + 1].uid], {})
+            /\ InsertCollideU(d, p, b, k)
+
 Destroy(d, r) ==
     /\ DestroyS(d, r)
     /\ uid' \in UidCands({}, <<>>, Desc(r))
@@ -86,6 +93,9 @@ RootSeqs(d) == {<<r>> : r \in In(d)}
 
 Next ==
     \/ \E d \in Doms : \E p \in In(d) \cup {Null} : \E b \in BuildersOf(Shapes) : Insert(d, p, b)
+    \/ \E d \in Doms : \E p \in In(d) \cup {Null} : \E b \in BuildersOf(Shapes) : \E k \in {1, Len(b)} : \E c \in In(d) :
+          InsertCollide(d, p, b, k, c)
+    \/ \E d \in Doms : \E kind \in RootKinds \cup MissingKinds : \E r \in Refs \cup {Null} : BadCall(kind, d, r)
     \/ \E d \in Doms : \E r \in In(d) : Destroy(d, r)
     \/ \E d \in Doms : \E r \in In(d) : \E e \in Doms : \E p \in In(e) : Transfer(d, r, e, p)
     \/ \E d \in Doms : \E r \in In(d) : \E p \in In(d) : TransferWithin(d, r, p)
